@@ -35,13 +35,13 @@ checks = {
    text="same world with chunk limits scaled down and sizes around them in all three Forward modes; every chunk that reaches the upstream or the disk (after spill, retry, recovery) is checked for well-formedness, self-description, id uniqueness, completeness and order. What simulation adds is the write/flush interleaving, ids cut at one clock instant and across restarts, and checking what actually arrives.",
    note="trusted base as C01; the Datadog format is not part of this world"),
  "C12": dict(engine="world-A", cat="exploration", ref="DESIGN.md §5 C12",
-   text="same world with every record pooled and the pool driven adversarially by the decision stream, several connections interleaved into shared pipelines; every delivered event must equal the event of its own record on a fresh single-record pipeline.",
-   note="trusted base as C01; percentage sampling excluded (documented as stateful); single-output configuration"),
+   text="same world with every record pooled and the pool driven adversarially by the decision stream, several connections interleaved into shared pipelines; every delivered event, on one or two outputs, must equal the event of its own record on a fresh single-record pipeline for that output; configuration with per-record flags (unescape), composed fields in the input extractions and late conditional fields; released buffers poisoned in half of the runs.",
+   note="trusted base as C01; percentage sampling excluded (documented as stateful); a violation that depends on Go's per-map hash seed does not replay and is reported as harness error, not as violation (DESIGN.md §11.2 defect 16)"),
  "C18": dict(engine="world-A", cat="exploration", ref="DESIGN.md §5 C18",
    text="stop requests at seeded moments against every upstream state and load; simulated time from the stop request to the return of shutdownInputs()+Shutdown() compared with the bound computed from the timeouts configured for that run; nothing may be only in memory afterwards; plus the client-level stop bound in world B.",
    note="trusted base as C01; the fake clock makes minute-long timeouts free, so the bound is checked at shipped-order timeout values"),
  "C19": dict(engine="world-A", cat="exploration", ref="DESIGN.md §5 C19",
-   text="balance equations between the agent's own counters and harness-observed events after every graceful stop of faulty runs.",
+   text="balance equations between the agent's own counters and harness-observed events after every graceful stop of faulty runs, and per-label attribution: pipeline and labelled counters of every key-label tuple against the records with exactly those key values (two metric keys with colliding concatenations in half of the runs).",
    note="trusted base as C01; only relations determined by observable events are asserted (equalities where possible, inequalities where in-flight loss makes a quantity unobservable); profiles without reachable limits"),
 }
 na_pure = {
